@@ -289,7 +289,8 @@ func c08Run(w *core.W) {
 	}
 	// (5) key shortcuts with additionalProperties
 	for _, ap := range []string{"", ` // {additionalProperties: true}`, ` // {additionalProperties: false}`, ` // {additionalProperties: "string"}`, ` // {additionalProperties: "@o"}`} {
-		for _, body := range []string{"\t@s: 1", "\t\"k\": 1,\n\t@s: \"v\"", "\t@s: 1,\n\t\"k\": true", "\t@s: {\n\t\t\"in\": 1\n\t}"} {
+		for _, body := range []string{"\t@s: 1", "\t\"k\": 1,\n\t@s: \"v\"", "\t@s: 1,\n\t\"k\": true", "\t@s: {\n\t\t\"in\": 1\n\t}",
+			"\t\"\": 1,\n\t@s: \"v\"", "\t@s: 1,\n\t\"\": true,\n\t\"@s\": 2", "\t\"\": {\n\t\t@s: 1\n\t}"} {
 			if mine() {
 				c08Case(w, &project{Root: "{" + ap + "\n" + body + "\n}", Types: map[string]string{"@s": c05Defs["@s"], "@o": c05Defs["@o"]}}, "key-shortcuts")
 			}
